@@ -16,6 +16,62 @@ RULE = ("constraint-free programs from the typed generator in well-typed mode (p
 
 NONTRIVIAL = {"map", "filter", "reduce", "call", "sel", "module", "select", "copy", "fmt", "fmt1", "range", "cast"}
 
+LITS = {"int": ["1", "42"], "str": ["\"s\"", "\"two\""], "bool": ["true", "false"], "float": ["1.5", "0.25"]}
+USE = {"int": "%s + 1", "str": "%s + \"x\"", "bool": "%s && true", "float": "%s + 0.5"}
+
+
+def hetero_programs(r):
+    """programs that are fine for a dynamically typed language but mix types where a static checker has to keep several
+    candidates: arms / defaults / elements / callbacks / overrides of DIFFERENT types, of which only the one that is taken
+    is then used according to its own type.  -> [(label, text)]"""
+    out = []
+    types = list(LITS)
+    for A in types:
+        for B in types:
+            if A == B:
+                continue
+            a, b = r.choice(LITS[A]), r.choice(LITS[B])
+            ua, ub = USE[A], USE[B]
+            P = lambda label, text: out.append((label, text))
+            # select: the taken arm has type A, the others / the default have type B
+            P("select-arms-differ", "let s = select (\"k\") => {k = %s, j = %s}; let v = %s;" % (a, b, ua % "s"))
+            P("select-default-differs-taken", "let s = select (\"zz\", %s) => {k = %s}; let v = %s;" % (a, b, ua % "s"))
+            P("select-default-differs-not-taken", "let s = select (\"k\", %s) => {k = %s}; let v = %s;" % (b, a, ua % "s"))
+            P("select-default-inline-use", "let v = %s;" % (ua % ("(select (\"zz\", %s) => {k = %s})" % (a, b))))
+            P("select-bool-arms-differ", "let c = 1 == 1; let s = select (c) => {true = %s, false = %s}; let v = %s;" % (a, b, ua % "s"))
+            P("select-tuple-arms-extra-field", "let s = select (\"y\") => {x = {a = %s}, y = {a = %s, b = %s}}; let v = %s;" % (b, b, a, ua % "s.b"))
+            P("select-tuple-arms-field-type-differs", "let s = select (\"y\") => {x = {a = %s}, y = {a = %s}}; let v = %s;" % (b, a, ua % "s.a"))
+            P("select-list-arms-differ", "let s = select (\"y\") => {x = [%s], y = [%s, %s]}; let v = %s;" % (b, b, a, ua % "s.1"))
+            P("select-result-copied", "let s = select (\"x\") => {x = {a = %s}}; let w = s{b = %s}; let v = %s;" % (b, a, ua % "w.b"))
+            P("select-result-copied-2-arms", "let s = select (\"x\") => {x = {a = %s}, y = {c = %s}}; let w = s{b = %s}; let v = %s;" % (b, b, a, ua % "w.b"))
+            # lists
+            P("list-heterogeneous-index", "let l = [%s, %s]; let v = %s; let w = %s;" % (a, b, ua % "l.0", ub % "l.1"))
+            P("list-concat-heterogeneous-index", "let l = [%s, %s] + [%s]; let v = %s;" % (a, b, a, ub % "l.1"))
+            P("list-concat-then-index", "let l = [%s] + [%s]; let v = %s;" % (a, b, ub % "l.1"))
+            P("list-of-lists-differ", "let l = [[%s], [%s]]; let v = %s;" % (a, b, ub % "(l.1).0"))
+            P("map-result-types-differ", "let l = map(func (x) => select (x == 1, %s) => {true = %s}, [1, 2]); let v = %s;" % (b, a, ua % "l.0"))
+            # tuples / copies
+            P("copy-nested-override-extra-field", "let t = {a = {x = %s}}; let u = t{a = {x = %s, y = %s}}; let v = %s;" % (b, b, a, ua % "u.a.y"))
+            P("copy-adds-field", "let t = {a = %s}; let u = t{b = %s}; let v = %s;" % (b, a, ua % "u.b"))
+            P("copy-null-field-then-typed", "let t = {a = NULL}; let u = t{a = %s}; let v = %s;" % (a, ua % "u.a"))
+            P("copy-list-field-other-element-type", "let t = {l = [%s]}; let u = t{l = [%s]}; let v = %s;" % (b, a, ua % "u.l.0"))
+            P("copy-tuple-field-other-fields", "let t = {i = {a = %s}}; let u = t{i = {b = %s}}; let v = %s;" % (b, a, ua % "u.i.b"))
+            # functions
+            P("func-returns-by-argument", "let f = func (c) => select (c, %s) => {true = %s}; let v = %s; let w = %s;" % (b, a, ua % "f(true)", ub % "f(false)"))
+            P("func-identity-two-types", "let f = func (x) => x; let v = %s; let w = %s;" % (ua % ("f(%s)" % a), ub % ("f(%s)" % b)))
+            P("func-field-of-argument-two-shapes", "let f = func (t) => t.a; let v = %s; let w = %s;" % (ua % ("f({a = %s})" % a), ub % ("f({a = %s, z = 1})" % b)))
+            P("reduce-callback-other-type-than-acc", "let r = reduce(func (acc, x) => %s, %s, [1, 2]); let v = %s;" % (a, b, ua % "r"))
+            P("reduce-over-empty-keeps-acc", "let r = reduce(func (acc, x) => %s, %s, []); let v = %s;" % (a, b, ub % "r"))
+            # modules
+            P("module-param-list-other-element-type", "let m = module {l = [%s]} => (mod.l) {}; let r = m{l = [%s]}; let v = %s;" % (b, a, ua % "r.0"))
+            P("module-param-tuple-other-fields", "let m = module {t = {a = %s}} => (mod.t) {}; let r = m{t = {b = %s}}; let v = %s;" % (b, a, ua % "r.b"))
+            P("module-null-param-two-types", "let m = module {p = NULL} => (mod.p) {}; let v = %s; let w = %s;" % (ua % ("m{p = %s}" % a), ub % ("m{p = %s}" % b)))
+            P("module-result-by-param", "let m = module {c = true} => (r) {let r = select (mod.c, %s) => {true = %s};}; let v = %s; let w = %s;" % (b, a, ua % "m{}", ub % "m{c = false}"))
+            # in / is guards
+            P("is-guard", "let x = %s; let v = select (x is \"%s\", %s) => {true = %s};" % (a, A, a, ua % "x"))
+    return out
+
+
 CATALOGUE = [
     "let t = {a = 1, b = 2}; let r = map(func (k, v) => [k, v + 1], t);",
     "let t = {a = 1, b = 2}; let r = filter(func (k, v) => v > 1, t);",
@@ -105,8 +161,12 @@ def judge(drv, text, res, label, kinds=None):
         m = re.sub(r"'[^']*'", "'_'", m)
         m = re.sub(r"\"[^\"]*\"", "\"_\"", m)
         checker = "Type error" in err
-        res.violation(["checker-rejects" if checker else "build-fails-eval-succeeds", m[:70]], {"text": text},
-                      {"err": err[:400], "label": label})
+        sig = ["checker-rejects" if checker else "build-fails-eval-succeeds", m[:70]]
+        if label.startswith("hetero:"):
+            # the family is instantiated for every pair of types: the signature names the shape of the program, not the pair
+            sig[1] = re.sub(r"\b(int|str|float|boolean|bool)\b", "<t>", sig[1])
+            sig.append(label[7:])
+        res.violation(sig, {"text": text}, {"err": err[:400], "label": label})
         return
     ev = {k: refint.strip_r(v) for k, v in e["val"]["T"]}
     bv = {k: refint.strip_r(v) for k, v in b["val"]["T"]} if b.get("val") else {}
@@ -143,6 +203,10 @@ def task(args):
         else:
             for t in CATALOGUE:
                 judge(drv, t, res, "catalogue")
+            r = core.rng_for(1, "c07hetero", 0)
+            for label, t in hetero_programs(r):
+                res.count("hetero:" + label)
+                judge(drv, t, res, "hetero:" + label)
             res.sample({"text": CATALOGUE[0]})
     finally:
         drv["probe"].stop()
@@ -161,11 +225,11 @@ def run(tier, seed, t0):
                                     "signature of a spurious rejection = checker message with identifiers and digits stripped"])
 
 
-def check_text(text):
+def check_text(text, label="replay"):
     res = core.Result()
     drv = mkdrv("r")
     try:
-        judge(drv, text, res, "replay")
+        judge(drv, text, res, label)
     finally:
         drv["probe"].stop()
         shutil.rmtree(drv["dir"], ignore_errors=True)
@@ -176,7 +240,8 @@ def replay_known(entry):
     w = entry.get("witness", {})
     if "text" not in w:
         return None
-    res = check_text(w["text"])
+    sig = entry.get("signature", [])
+    res = check_text(w["text"], "hetero:" + sig[2] if len(sig) == 3 else "replay")
     if entry.get("status") == "known":
         return any(v["signature"] == entry["signature"] for v in res.violations)
     return bool(res.violations)
